@@ -1,0 +1,11 @@
+//go:build verif
+
+package glsl
+
+import "github.com/gogpu/naga/glsl/internal/codegen"
+
+type VerifNamer = codegen.VerifNamer
+
+func NewVerifNamer() *VerifNamer        { return codegen.NewVerifNamer() }
+func VerifSanitize(label string) string { return codegen.VerifSanitize(label) }
+func VerifKeywords() []string           { return codegen.VerifKeywords() }
